@@ -3,6 +3,7 @@ EXTENDS Cache
 CONSTANTS r1, r2
 \* read ranges <<offset, length>> in units; SZ = 7 = 3 blocks of 2 units + a tail of 1 unit
 RS_q == {<<1, 4>>, <<3, 5>>, <<0, 2>>, <<6, 2>>, <<7, 1>>}
+RS_q3 == {<<1, 4>>, <<3, 5>>, <<6, 2>>}
 RS_one == {<<1, 5>>, <<4, 4>>}
 RS_all == {<<o, n>> \in (0..7) \X (1..8) : o + n <= 9}
 RS_t == {<<0, 7>>, <<1, 4>>, <<3, 5>>, <<0, 2>>, <<2, 2>>, <<4, 3>>, <<6, 2>>, <<7, 1>>, <<5, 1>>}
